@@ -96,10 +96,11 @@ Lemma div_in_range : forall w a b, 0 < w -> b <> 0 -> b <> -1 ->
 Proof.
   intros w a b Hw Hb Hb1 Ha.
   assert (Hp : 0 < 2 ^ (w - 1)) by (apply pow2_pos; lia).
+  set (P := 2 ^ (w - 1)) in *. clearbody P.
   destruct (Z_lt_dec 0 b).
-  - split; [apply Z.div_le_lower_bound; nia | apply Z.lt_le_pred, Z.div_le_upper_bound; nia].
+  - split; [apply Z.div_le_lower_bound; nia | apply Z.div_lt_upper_bound; nia].
   - assert (b < -1) by lia. rewrite <- Z.div_opp_opp by lia.
-    split; [apply Z.div_le_lower_bound; nia | apply Z.lt_le_pred, Z.div_le_upper_bound; nia].
+    split; [apply Z.div_le_lower_bound; nia | apply Z.div_lt_upper_bound; nia].
 Qed.
 
 Lemma forth_div_spec : forall w a b, 0 < w -> b <> 0 -> - 2 ^ (w - 1) <= a < 2 ^ (w - 1) ->
@@ -114,7 +115,7 @@ Qed.
 Lemma forth_mod_spec : forall w a b, b <> 0 -> forth_mod w a b = a mod b.
 Proof.
   intros w a b Hb. unfold forth_mod. destruct (b =? -1) eqn:E1.
-  - assert (b = -1) by lia. subst b. symmetry. apply Z.mod_unique with (q := - a); [right; lia | lia].
+  - assert (b = -1) by lia. subst b. apply Z.mod_unique with (q := - a); [right; lia | lia].
   - fold (floor_mod_raw a b). apply floor_mod_raw_spec. assumption.
 Qed.
 
@@ -1482,9 +1483,9 @@ Definition same_data (m m' : machine) : Prop :=
 
 (* (b) run-time faults are reported as documented error codes and stop the machine until begin / reset.
    PARTIAL: the remaining possible outcome `Fault k` (undefined behaviour of the C++) is not excluded here; which k
-   can arise from compiled programs (2 negative repeat count, 3 negative rewind, 4 INT_MIN / -1, 5/6 exit inside
-   a do-loop, 7 call at the recursion limit, 8 recursion limit < 1, 9 wide bit fields) is established by the
-   correspondence runs only. *)
+   can arise from compiled programs (2 repeat count * item size overflowing int64, 5/6 exit inside a do-loop,
+   7 call at the recursion limit, 8 recursion limit < 1, 9 wide bit fields) is established by the correspondence
+   runs only. *)
 Theorem faults_are_errors_partial_proof :
   (* every error code a step / resume / call can leave is one of the documented ones *)
   (forall fixed p e m m', doc_err (m_err m) -> api_step fixed p e m = Ok m' -> doc_err (m_err m')) /\
